@@ -48,22 +48,29 @@ Theorem Compose_dir_choice : forall su goos goarch top l,
                      | C.Sub => Paths.magefiles_dir l | C.Top => Paths.dir0 l end.
 Proof. exact paths_mage_dir_is_choose_dir. Qed.
 
-(* C09's top-level [L.invoke] takes the branch C10's choose_dir names.  PARTIAL: L.invoke always runs
-   the TOP directory with f_mfdir = false; C10's [top_named] (`mage -d .../magefiles`: the directory
-   mage is pointed at is itself named magefiles, so it is listed WITHOUT the second, untagged pass)
-   has no counterpart in L.invoke.  The real mage behaves as C10 says (notes); the statement below
-   is the agreement for top_named = false. *)
-Theorem Compose_lifecycle_dir_choice_partial : forall w faults fl su goos goarch top (d : L.fs),
+(* C09's top-level [L.invoke_named] takes the branch C10's choose_dir names and runs the chosen
+   directory with f_mfdir = the isMagefilesDirectory argument C10's [invoke_magefiles] passes to
+   Magefiles: [top_named] (`mage -d .../magefiles`: the directory mage is pointed at is itself named
+   magefiles and is listed WITHOUT the second, untagged pass) for the directory itself, true for its
+   magefiles sub-directory.  (Until c09's repair of Model/Lifecycle.v this could only be stated for
+   top_named = false; [L.invoke] is the top_named = false instance.) *)
+Theorem Compose_lifecycle_dir_choice : forall w faults fl su goos goarch tn top sub0 (d : L.fs),
   let ohf := has_files (C.magefiles su goos goarch false top) in
   let has_sub := match L.lookup (L.rs w d) L.magefilesDir with Some (L.Dir _) => true | _ => false end in
   match C.choose_dir su goos goarch has_sub top with
-  | C.Top => exists d', L.invoke w faults fl ohf d = L.invoke_dir w faults (L.with_mfdir fl false) d'
-  | C.Sub => exists sub, L.lookup (L.rs w d) L.magefilesDir = Some (L.Dir sub) /\
-                         L.invoke w faults fl ohf d =
+  | C.Top => C.invoke_magefiles su goos goarch has_sub tn top sub0 = (C.Top, C.magefiles su goos goarch tn top) /\
+             exists d', L.invoke_named w faults fl tn ohf d = L.invoke_dir w faults (L.with_mfdir fl tn) d'
+  | C.Sub => C.invoke_magefiles su goos goarch has_sub tn top sub0 = (C.Sub, C.magefiles su goos goarch true sub0) /\
+             exists sub, L.lookup (L.rs w d) L.magefilesDir = Some (L.Dir sub) /\
+                         L.invoke_named w faults fl tn ohf d =
                            (let '(sub2, c) := L.invoke_dir w faults (L.with_mfdir fl true) (L.rs w sub) in
                             (L.set L.magefilesDir (L.Dir sub2) (L.rs w d), c))
   end.
-Proof. exact lifecycle_invoke_follows_choose_dir_partial. Qed.
+Proof. exact lifecycle_invoke_follows_choose_dir. Qed.
+
+Theorem Compose_lifecycle_invoke_is_named : forall w faults fl ohf d,
+  L.invoke w faults fl ohf d = L.invoke_named w faults fl false ohf d.
+Proof. exact lifecycle_invoke_is_named. Qed.
 
 (* ---- (2) C09's reuse-or-build branch is C08's cache decision ---- *)
 
@@ -170,7 +177,8 @@ Print Assumptions Compose_hashed_files_are_magefiles.
 Print Assumptions Compose_non_magefile_edit_keeps_name.
 Print Assumptions Compose_magefile_edit_changes_name.
 Print Assumptions Compose_dir_choice.
-Print Assumptions Compose_lifecycle_dir_choice_partial.
+Print Assumptions Compose_lifecycle_dir_choice.
+Print Assumptions Compose_lifecycle_invoke_is_named.
 Print Assumptions Compose_lifecycle_uses_cache_decision.
 Print Assumptions Compose_gobuild_iff_not_reuse.
 Print Assumptions Compose_build_started_iff_compiled.
